@@ -16,6 +16,31 @@ CLAIMS = {
   'design_ref': 'DESIGN.md section 3 C02',
   'note': 'the step from tag equality to "exactly what the peer sent next" is MAC/AEAD unforgeability (assumed); cipher/HMAC objects abstract',
   'technique': TECH + '; exceptional postconditions (raises-only-when)'},
+ 'C20': {
+  'text': 'Every classification list of CipherSuite, the parameter tables of the record layer (_getCipherSettings, _getMacSettings, _getHMACMethod), the PRF choice (calc_key, _getPRFParams, TLS 1.3 key derivation) and the name accessors are proved equal to an independent parse of the IANA suite name, with the suite id symbolic over all ids of ietfNames (finite domain, complete); the version/MAC/cipher/key-exchange filters are proved sound, complete and order preserving with the settings lists as symbolic subsets.',
+  'design_ref': 'DESIGN.md section 3 C20',
+  'note': 'oracle = specs/iana.py (hand-written from the RFC naming rules); key-exchange class dispatch chains in the handshake are covered only through the list facts; known findings F17/F18 (dead DHE_DSS SHA256 suites, getSrpDsaSuites) are carved out and printed as KNOWN-FINDING',
+  'technique': TECH + '; finite-domain symbolic suite id; table tasks'},
+ 'C03': {
+  'text': 'Negotiation core only: the suite filters (_filterSuites, filterForVersion, filter_for_certificate, filter_for_prfs and every get*Suites wrapper) are proved to return exactly the suites whose IANA-name MAC, cipher and key exchange are enabled in the settings and whose versions fit, for every suite id and every subset of the settings lists (sound, complete, order). Partial: the client/server ServerHello/ClientHello acceptance guards, key-size checks and KDF argument symmetry are not_built.',
+  'design_ref': 'DESIGN.md section 3 C03',
+  'note': 'agreement of the two endpoints\' views (secrets, exporter, flags) needs two executions and is not shown; only that whatever is negotiated lies inside the settings as far as suite selection goes',
+  'technique': TECH + '; finite-domain symbolic sets'},
+ 'C05': {
+  'text': 'TLS 1.3 server authentication on the client (TLSConnection._clientTLS13Handshake, executed from real source in guard-dominance mode): on every path that records a server certificate chain in the session, the CertificateVerify check returned true, it was the verify routine of the key taken from that very chain (or of a delegated credential whose own verify succeeded), applied to the signature of the received CertificateVerify message and to calcVerifyBytes of the transcript snapshot, and the signature scheme had been offered by the client. Partial: <=1.2 ServerKeyExchange/CertificateVerify sites, TLS 1.3 client auth, PHA, SRP, PSK binder sites are not_built.',
+  'design_ref': 'DESIGN.md section 3 C05',
+  'note': 'M2 abstraction: objects and callees opaque, heap havoc by whole-repository store scan; that verify() returns false for wrong signatures is C10; Finished/PSK proof is C04',
+  'technique': TECH + '; guard-dominance mode (state merging, opaque callees, ghost facts)'},
+ 'C18': {
+  'text': 'SessionCache: sequential specification proved on the real __init__/__getitem__/__setitem__/_purge against an abstract map+clock view with a five-part representation invariant (indices in range, cells<->dict bijection, time-sorted segment), incl. absence of internal errors; lock discipline proved per access site on the real AST for SessionCache, BaseDB and Python_RSAKey._rawPrivateKeyOp (every shared-field access inside the critical section, lock released on all exits, encapsulation). Linearizability then follows in monitor form.',
+  'design_ref': 'DESIGN.md section 3 C18',
+  'note': 'threading.Lock assumed to be a mutex, time.time monotone integer clock, maxEntries >= 2; thread schedules are not executed; re-storing an existing id (F5) and maxEntries=0 (F5b) are known findings carved out; RSA blinding algebra not built',
+  'technique': TECH + '; data-structure invariant with ghost map; AST lock-discipline task'},
+ 'C19': {
+  'text': 'validate() frame: a flow- and context-sensitive points-to analysis over the real AST of validate() and the 23 helpers it reaches poses one obligation per attribute store and per in-place mutation site (the mutated object is a fresh copy, never an alias of a receiver field); the numeric/range rejection helpers are proved to raise ValueError exactly for out-of-domain values and nothing else. Partial: idempotence, string-list domains and "compatible settings connect" are covered only by the bounded differential run / not built.',
+  'design_ref': 'DESIGN.md section 3 C19',
+  'note': 'points-to analysis is a custom checker (pyvc/framecheck.py), not SMT; liveness part of the property not claimed',
+  'technique': TECH + '; AST frame/alias analysis task for the receiver-immutability obligations'},
 }
 NOT_APPLICABLE = {
  'C07': 'interoperability with OpenSSL: no contract on /repo functions can speak about another implementation\'s behaviour; needs a second implementation executing (see DESIGN.md C07)',
